@@ -361,9 +361,15 @@ def run(ctx):
         ("nwidei32", "(i32v[0] as int64) * i32v[1]", lambda v: v["i32v"][0] * v["i32v"][1]),
         ("nf32", "f32v[0] * 2.5 + u8a[0]", lambda v: v["f32v"][0] * 2.5 + v["u8a"][0]),
         ("nsize", "(size(u8a) as int32) * u8a[3]", lambda v: 4 * v["u8a"][3]),
+        # computed fields that return the value of other computed fields (a value, not a reference), and the computed fields of a generic record
+        # reached through two instantiations with different type arguments
+        ("hsz", "size(u8a)", lambda v: 4), ("isz", "hsz", lambda v: 4), ("jsz", "isz + 1", lambda v: 5), ("ksum", "nsum8", lambda v: v["u8a"][0] + v["u8a"][1]),
+        ("gpb", "pb.one", lambda v: v["pb"][0]), ("gpa", "pa.one", lambda v: v["pa"][0]), ("gpa2", "pa.two", lambda v: v["pa"][1]), ("gpb2", "pb.two", lambda v: v["pb"][1]),
+        ("gsum", "pa.one + pa.two", lambda v: v["pa"][0] + v["pa"][1]), ("gboth", "pb.one + pa.one", lambda v: v["pb"][0] + v["pa"][0]),
     ]
+    emodel += "NPair<T>: !record\n  fields:\n    first: T\n    second: T\n  computedFields:\n    one: first\n    two: second\n"
     emodel += ("Nx: !record\n  fields:\n    u8a: 'uint8[4]'\n    i8v: int8*\n    i16a: 'int16[2, 2]'\n    u16v: uint16*\n    u32v: uint32*\n    i32v: 'int32[2]'\n    f32v: float32*\n"
-               "    u8s: uint8\n    i16s: int16\n    ia: int32\n  computedFields:\n")
+               "    u8s: uint8\n    i16s: int16\n    ia: int32\n    pa: NPair<int16>\n    pb: NPair<float64>\n  computedFields:\n")
     for nme, src, _ in NX:
         emodel += "    %s: '%s'\n" % (nme, src)
     emodel += "PNx: !protocol\n  sequence:\n    items: !stream\n      items: Nx\n"
@@ -402,7 +408,9 @@ def run(ctx):
              Al("ENamedUn", U(((None, P("int32")), (None, P("string"))))),
              Proto("PEx", [("items", S(N("Ex")))]),
              Rec("Nx", [("u8a", A(P("uint8"), ((None, 4),))), ("i8v", V(P("int8"))), ("i16a", A(P("int16"), ((None, 2), (None, 2)))), ("u16v", V(P("uint16"))), ("u32v", V(P("uint32"))),
-                        ("i32v", A(P("int32"), ((None, 2),))), ("f32v", V(P("float32"))), ("u8s", P("uint8")), ("i16s", P("int16")), ("ia", P("int32"))]),
+                        ("i32v", A(P("int32"), ((None, 2),))), ("f32v", V(P("float32"))), ("u8s", P("uint8")), ("i16s", P("int16")), ("ia", P("int32")),
+                        ("pa", N("NPair", (P("int16"),))), ("pb", N("NPair", (P("float64"),)))]),
+             Rec("NPair", [("first", TP("T")), ("second", TP("T"))], ("T",)),
              Proto("PNx", [("items", S(N("Nx")))])]
     hp = Pkg("Cf", defs)
     codec = Codec(hp)
@@ -519,8 +527,9 @@ def run(ctx):
         i32v = [r.choice([2147483647, -2147483648, 70000, r.randint(-2**31, 2**31 - 1)]) for _ in range(2)]
         f32v = [f32(r.choice([0.5, 1.25, -3.0, 1024.0]))]
         u8s, i16s, ia = r.choice([255, 200, r.randint(0, 255)]), r.choice([32767, -32768, 300, r.randint(-32768, 32767)]), r.randint(-1000, 1000)
-        nitems.append([((4,), u8a), i8v, ((2, 2), i16a), u16v, u32v, ((2,), i32v), f32v, u8s, i16s, ia])
-        nenvs.append(dict(u8a=u8a, i8v=i8v, i16a=i16a, u16v=u16v, u32v=u32v, i32v=i32v, f32v=[f32v[0].value], u8s=u8s, i16s=i16s, ia=ia))
+        pa, pb = [r.randint(-300, 300), r.randint(-300, 300)], [f64(r.choice([0.5, 2.25, -7.0])), f64(r.choice([1.5, 100.0]))]
+        nitems.append([((4,), u8a), i8v, ((2, 2), i16a), u16v, u32v, ((2,), i32v), f32v, u8s, i16s, ia, pa, pb])
+        nenvs.append(dict(u8a=u8a, i8v=i8v, i16a=i16a, u16v=u16v, u32v=u32v, i32v=i32v, f32v=[f32v[0].value], u8s=u8s, i16s=i16s, ia=ia, pa=pa, pb=[pb[0].value, pb[1].value]))
     pr, rows_cpp, res, rows_py = run_both("PNx", nitems)
     if rows_cpp is None or rows_py is None:
         ctx.violation("driver-failed:%s" % ("cpp" if rows_cpp is None else "py"), "Nx: computed-field driver failed: %s %s" % (pr.stderr[-300:], res.get("error")), {"case_dir": root})
